@@ -23,7 +23,9 @@ RULE = ("cases = (prior environment, sequence of 1-6 envPrepend/envAppend/envSet
         "a third run with --force over a generated oldEnviron/oldAliases; plus an exhaustive small family (prior lists over "
         "{a,b,x,empty} up to length 3 x 4 values x prepend/append x direction x flags) and an end-to-end family (a product "
         "directory whose table of 1-5 path/set lines is set up with eups.app.setup — setup -r dir, or declared and set up by name — and unset again, each by a "
-        "fresh Eups, compared with the model of the table's lines run forward and backward); a case is "
+        "fresh Eups, with and without --force, 40 % with a failed optional dependency before a variable the table sets and then "
+        "refers to; the environments and the emitted commands applied to a model shell are compared with the model of the table's "
+        "lines run forward and backward); a case is "
         "non-trivial when at least one action changes the variable or is refused; distinct = distinct case digests")
 TRUSTED = ["CPython `re`, `str.split/join` on the patterns used by execute_envPrepend (exercised, not verified)",
            "values free of backslashes and newlines (re.sub template processing and `$` before a trailing newline are not modelled)"]
@@ -281,6 +283,9 @@ def table_text(case):
              "set": ["envSet", "pathSet", "setenv"], "unset": ["envUnset", "pathRemove", "unsetenv"], "alias": ["addAlias", "addalias"]}
     lines = []
     for i, a in enumerate(case["acts"]):
+        if a["op"] == "optional":       # a dependency nobody declares: the request goes on, the environment is rolled back
+            lines.append("setupOptional(%s)" % a["value"])
+            continue
         cmd = names[a["op"]][(i + len(a["var"]) + len(a["value"])) % len(names[a["op"]])]
         if a["op"] in ("prepend", "append"):
             args = [a["var"], a["value"]] + ([a["delim"]] if a["delim"] != ":" else [])
@@ -702,6 +707,19 @@ def gen_e2e(rng):
         else:
             var = "V" if (w_is_set or rng.random() < 0.7) else "W"
             lines.append({"op": rng.choice(["prepend", "append"]), "var": var, "value": text, "val": val, "delim": delim})
+    rollback = rng.random() < 0.4
+    if rollback:
+        # a failed optional dependency (Eups.popStack("env") rebinds os.environ), then a variable set by the table and a
+        # reference to it: the reference must read the value the table has just set, not the one from before the rollback
+        if rng.random() < 0.6:
+            env["BASE"] = "/old/base"
+        ref = rng.choice(["${BASE}/bin", "${BASE}/bin", "$?{BASE}/opt"])
+        tail = ref[ref.index("}") + 1:]
+        k = rng.randint(0, len(lines))
+        lines[k:k] = [{"op": "optional", "var": "", "value": "nosuchprod", "val": "", "delim": delim},
+                      {"op": "set", "var": "BASE", "value": "${PRODUCT_DIR}/share", "val": ("dir", "/share"), "delim": delim},
+                      {"op": rng.choice(["prepend", "append"]), "var": "V", "value": ref, "val": ("dir", "/share" + tail),
+                       "delim": delim, "baseref": True}]
     for v in VARS:
         r = rng.random()
         if r < 0.2:
@@ -709,7 +727,21 @@ def gen_e2e(rng):
         pool = atoms + ["", "${X}/kept"] + [l["value"] for l in lines if isinstance(l["val"], str) and l["op"] != "set"]
         env[v] = delim.join(rng.choice(pool) for _ in range(rng.randint(0, 5)))
     return {"kind": "e2e", "env": env, "lines": lines, "delim": delim, "dirname": rng.choice(["prd", "loc dir", "p-1.0"]),
-            "route": rng.choice(["local", "declared"])}
+            "route": rng.choice(["local", "declared"]), "force": rng.random() < 0.35, "rollback": rollback}
+
+
+def shell_apply(env, cmds):
+    """What a POSIX shell holds after sourcing the emitted commands (`export K=V` with the emitter's quoting, `unset K`)."""
+    env = dict(env)
+    for c in cmds:
+        if c.startswith("export "):
+            k, v = c[len("export "):].split("=", 1)
+            if len(v) >= 2 and v[0] == "'" and v[-1] == "'":
+                v = v[1:-1].replace("'\\''", "'")
+            env[k] = v
+        elif c.startswith("unset ") and not c.startswith("unset -f "):
+            env.pop(c[len("unset "):], None)
+    return env
 
 
 def run_e2e(case):
@@ -725,27 +757,39 @@ def run_e2e(case):
             with open(os.path.join(d, "ups", "prd.table"), "w") as f:
                 f.write(table_text({"acts": acts}))
             declared = case.get("route") == "declared"
-            for k in ("V", "W", "FOO", "X", "PRD_DIR", "SETUP_PRD"):
+            for k in ("V", "W", "FOO", "X", "BASE", "PRD_DIR", "SETUP_PRD"):
                 os.environ.pop(k, None)
             os.environ.update(case["env"])
             M, app = common.eups_mod("Eups"), common.eups_mod("app")
             U = common.eups_mod("utils")
             U.stderr = U.stdwarn = U.stdinfo = U.stdok = io.StringIO()
             out = {"dir": d, "eupsPath": os.environ.get("EUPS_PATH"), "root": stacks[0] if declared else None}
+            force = bool(case.get("force"))
+            watch = VARS + ["BASE"]
             with contextlib.redirect_stderr(io.StringIO()), contextlib.redirect_stdout(io.StringIO()):
                 try:
                     if declared:        # a declared version, set up by name: the main loop of Eups.setup runs the table
                         E0 = M.Eups(quiet=1)
                         E0.declare("prd", "1.0", productDir=d)
                         out["flavor"] = E0.flavor
-                        cmds = app.setup("prd", "1.0", eupsenv=M.Eups(quiet=1))
+                    shell = dict(os.environ)            # what the user's shell holds; it sources the emitted commands
+                    if declared:
+                        cmds = app.setup("prd", "1.0", eupsenv=M.Eups(quiet=1, force=force))
                     else:               # setup -r dir: the localProduct loop runs it
-                        cmds = app.setup("prd", productRoot=d, eupsenv=M.Eups(quiet=1))
-                    out["setup"] = "false" if "false" in cmds else {v: os.environ.get(v) for v in VARS}
+                        cmds = app.setup("prd", productRoot=d, eupsenv=M.Eups(quiet=1, force=force))
+                    out["setup"] = "false" if "false" in cmds else {v: os.environ.get(v) for v in watch}
                     out["setup_dir"] = os.environ.get("PRD_DIR")
-                    cmds = app.setup("prd", eupsenv=M.Eups(quiet=1), fwd=False)
-                    out["unsetup"] = "false" if "false" in cmds else {v: os.environ.get(v) for v in VARS}
+                    shell = shell_apply(shell, cmds)
+                    out["shell_setup"] = {v: shell.get(v) for v in watch}
+                    for k in list(os.environ):          # the next command runs in that shell
+                        if k not in shell:
+                            del os.environ[k]
+                    os.environ.update(shell)
+                    cmds = app.setup("prd", eupsenv=M.Eups(quiet=1, force=force), fwd=False)
+                    out["unsetup"] = "false" if "false" in cmds else {v: os.environ.get(v) for v in watch}
                     out["unsetup_dir"] = os.environ.get("PRD_DIR")
+                    shell = shell_apply(shell, cmds)
+                    out["shell_unsetup"] = {v: shell.get(v) for v in watch}
                 except Exception as ex:  # noqa
                     out["exc"] = type(ex).__name__ + ":" + str(ex)[:100]
             return out
@@ -762,7 +806,8 @@ def run_e2e_chunk(cases):
 def e2e_requests(case, out):
     """Model: the table's lines as Product.getTable hands them out (fromFile), run forward, then forward + backward."""
     d = out["dir"]
-    acts = [{"op": l["op"], "fwd": True, "var": l["var"], "value": l["value"], "delim": l["delim"]} for l in case["lines"]]
+    acts = [{"op": l["op"], "fwd": True, "var": l["var"], "value": l["value"], "delim": l["delim"]} for l in case["lines"]
+            if l["op"] != "optional"]       # the failed optional dependency leaves no trace
     base = {"m": "path", "env": dict(case["env"], EUPS_PATH=out["eupsPath"]), "fromfile": True, "eupspath": out["eupsPath"],
             "product": {"root": out.get("root"), "dir": d, "extraDir": "", "extraExists": False, "name": "prd",
                         "flavor": out.get("flavor"), "version": "1.0" if out.get("root") else None,
@@ -789,6 +834,18 @@ def e2e_oracle(case, out):
         return vals(l)[0]
     if out.get("setup_dir") != d or out.get("unsetup_dir") is not None:
         yield ("product_dir_variable", None, "PRD_DIR %r after setup, %r after unsetup" % (out.get("setup_dir"), out.get("unsetup_dir")))
+    if isinstance(out.get("setup"), dict) and isinstance(out.get("unsetup"), dict):
+        # the action-level clauses seen through the commands eups.app.setup hands to the shell (with and without --force)
+        for phase in ("setup", "unsetup"):
+            for v in VARS + ["BASE"]:
+                if out["shell_" + phase].get(v) != out[phase].get(v):
+                    yield ("emitted_commands_faithful", None, "%s%s: the shell holds %s=%r, eups computed %r" % (
+                        phase, " --force" if case.get("force") else "", v, out["shell_" + phase].get(v), out[phase].get(v)))
+        if case.get("rollback"):
+            if out["setup"].get("BASE") != d + "/share":
+                yield ("envset_exact", None, "BASE is %r after setup, expected %r" % (out["setup"].get("BASE"), d + "/share"))
+            if out["shell_unsetup"].get("BASE") is not None:
+                yield ("unsetup_removes_variable", None, "BASE is %r in the shell after unsetup" % out["shell_unsetup"].get("BASE"))
     for var in VARS:
         ls = [l for l in case["lines"] if l["var"] == var]
         if any(delim in x for l in ls if l["op"] != "set" for x in vals(l)):
@@ -804,8 +861,8 @@ def e2e_oracle(case, out):
         if sets and len(sets) == len(ls):
             if after != val(sets[-1]):
                 yield ("envset_exact", None, "%s is %r after setup, expected %r" % (var, after, val(sets[-1])))
-            if back is not None:
-                yield ("unsetup_removes_variable", None, "%s is %r after unsetup" % (var, back))
+            if back is not None or out["shell_unsetup"].get(var) is not None:
+                yield ("unsetup_removes_variable", None, "%s is %r after unsetup (%r in the shell)" % (var, back, out["shell_unsetup"].get(var)))
             continue
         if sets:
             continue            # envSet mixed with path commands on one variable: not specified as a whole
@@ -819,6 +876,8 @@ def e2e_oracle(case, out):
             yield ("other_variable_untouched", None, "%s changed by setup: %r" % (var, after))
         allvals = [x for l in ls for x in vals(l)]
         want = [x for x in old if x not in allvals]
+        if any(l.get("baseref") for l in ls):
+            continue        # unsetup runs the lines in table order: BASE is gone before the line that refers to it is unwound
         if ls and elems(back, delim) != want:
             yield ("table_unsetup_removes_exactly", None, "%s: %r, expected %r" % (var, elems(back, delim), want))
 
@@ -839,12 +898,18 @@ def evaluate_e2e(ctx, cases):
         ctx.hist("e2e")
         ctx.hist("e2e-lines=%d" % len(c["lines"]))
         ctx.hist("e2e-route=%s" % c.get("route"))
-        ctx.case(key={"e2e": c["env"], "lines": c["lines"], "dirname": c["dirname"], "route": c.get("route")}, nontrivial=True, sample=None)
+        ctx.hist("e2e-force=%s" % bool(c.get("force")))
+        ctx.hist("e2e-rollback-ref=%s" % bool(c.get("rollback")))
+        if c.get("force") and any(l["op"] == "set" for l in c["lines"]):
+            ctx.hist("e2e-force-envset")
+        ctx.case(key={"e2e": c["env"], "lines": c["lines"], "dirname": c["dirname"], "route": c.get("route"), "force": c.get("force")}, nontrivial=True, sample=None)
         if "dir" in o:
             a1, a2 = next(answers), next(answers)
-            mo = {"setup": ({v: a1["env"].get(v) for v in VARS} if a1["out"] == "ok" else a1["out"]),
-                  "unsetup": ({v: a2["env"].get(v) for v in VARS} if a2["out"] == "ok" else a2["out"])}
-            io_ = {"setup": o.get("setup"), "unsetup": o.get("unsetup")}
+            W_ = VARS + ["BASE"]
+            mo = {"setup": ({v: a1["env"].get(v) for v in W_} if a1["out"] == "ok" else a1["out"]),
+                  "unsetup": ({v: a2["env"].get(v) for v in W_} if a2["out"] == "ok" else a2["out"])}
+            mo["shell_setup"], mo["shell_unsetup"] = mo["setup"], mo["unsetup"]     # the shell ends up with what eups computed
+            io_ = {k: o.get(k) for k in ("setup", "unsetup", "shell_setup", "shell_unsetup")}
             if "exc" in o:
                 io_ = {"exc": o["exc"]}
             if mo != io_:
@@ -917,21 +982,49 @@ def evaluate(ctx, cases):
             ctx.fail(clause, inp, io_, mo, note=detail, finding=cls)
 
 
+def json_key(c):
+    import json
+    return json.dumps({"env": c["env"], "acts": c["acts"]}, sort_keys=True)
+
+
 def run(ctx):
     cases = corpus_cases()
     ctx.hist("corpus", len(cases))
-    n = ctx.n(40000, 400000)
+    e2e_corpus = [c for c in cases if c.get("kind") == "e2e"]
+    cases = [c for c in cases if c.get("kind") != "e2e"]
+    big = ctx.tier == "thorough" or ctx.escalated
     batch = 4000
+
+    def stream(n):
+        done = 0
+        while done < n and not ctx.out_of_time():
+            k = min(batch, n - done)
+            evaluate(ctx, [gen_case(ctx.rng) for _ in range(k)])
+            done += k
+    # the ordinary quick portion first and completely (every family, every class) ...
     evaluate(ctx, cases)
-    ex = exhaustive_cases(*ctx.n((3, [":"]), (4, [":", "::", "|"])))
+    ex = exhaustive_cases(3, [":"])
     ctx.hist("exhaustive", len(ex))
     evaluate(ctx, ex)
-    evaluate_e2e(ctx, [gen_e2e(ctx.rng) for _ in range(ctx.n(240, 2400))])
-    done = 0
-    while done < n and not ctx.out_of_time():
-        k = min(batch, n - done)
-        evaluate(ctx, [gen_case(ctx.rng) for _ in range(k)])
-        done += k
+    evaluate_e2e(ctx, e2e_corpus + [gen_e2e(ctx.rng) for _ in range(240)])
+    stream(40000)
+    # ... and only then the enlarged budget (thorough tier, or a quick run escalated because a mirrored source changed),
+    # the families in turn so that none starves when time runs out
+    if big and not ctx.out_of_time():
+        evaluate_e2e(ctx, [gen_e2e(ctx.rng) for _ in range(700)])
+        stream(100000)
+    if big and not ctx.out_of_time():
+        seen = {json_key(c) for c in ex}
+        ex2 = [c for c in exhaustive_cases(4, [":", "::", "|"]) if json_key(c) not in seen]
+        ctx.hist("exhaustive", len(ex2))
+        evaluate(ctx, ex2)
+    if big and not ctx.out_of_time():
+        evaluate_e2e(ctx, [gen_e2e(ctx.rng) for _ in range(1460)])
+        stream(260000)
+    if ctx.histogram.get("e2e", 0) >= 100:
+        for cls in ("e2e-rollback-ref=True", "e2e-force=True", "e2e-force=False", "e2e-force-envset", "e2e-route=local", "e2e-route=declared"):
+            if not ctx.histogram.get(cls):
+                raise common.InfraError("degenerate distribution: no end-to-end case of class %s" % cls)
     if ctx.evaluations > 5000:
         for cls in ("product=file", "product=inject", "force=True", "op=alias/setup", "op=alias/unsetup", "value=multi",
                     "macro-denotes=elems", "macro-denotes=skip", "macro-denotes=error", "op=unset/setup"):
